@@ -5,9 +5,12 @@
 (* code_writer.py (CodeWriter).  Pure operators only; Writer.tla turns them *)
 (* into a state machine, Trace_Writer.tla judges what the real objects did.*)
 (*                                                                         *)
-(* Texts are TLA+ strings over a symbolic alphabet; the harness binds      *)
+(* A text is a sequence of characters (one-character strings) over a       *)
+(* symbolic alphabet; the harness binds                                    *)
 (*   "|" = "\n"   "^" = "\t"   "~" = U+2028 (a str.splitlines() boundary   *)
 (*   that is NOT a line boundary for Python's tokenizer)   " " = space.    *)
+(* (TLC interns every string it builds under one lock, so texts are tuples;*)
+(* T("abc") / Str(<<"a","b","c">>) convert at the boundary.)               *)
 (*                                                                         *)
 (* A writer is  S = [level, lines, jn, mw]:                                *)
 (*   level  indentation level (units of four spaces)                       *)
@@ -29,190 +32,212 @@
 (***************************************************************************)
 EXTENDS Integers, Sequences, FiniteSets, TLC, SequencesExt
 
-\* ------------------------------------------------------------------ strings
-Sub(s, a, b) == IF a > b \/ a > Len(s) THEN "" ELSE SubSeq(s, a, b)      \* TLC: SubSeq on a string wants a non-empty range
-Ch(s, i) == SubSeq(s, i, i)
-RECURSIVE Spaces(_)
-Spaces(n) == IF n <= 0 THEN "" ELSE " " \o Spaces(n - 1)
-WS == {" ", "^", "|"}
+\* "evaluate e, then F of its value".  TLC passes operator arguments unevaluated and re-evaluates them at every
+\* use (so does LET): a variable bound over a singleton set is evaluated once.
+Then(e, F(_)) == CHOOSE r \in {F(v) : v \in {e}} : TRUE
 
-RECURSIVE FilterStr(_, _, _)
-FilterStr(s, drop, i) == IF i > Len(s) THEN "" ELSE (IF Ch(s, i) \in drop THEN "" ELSE Ch(s, i)) \o FilterStr(s, drop, i + 1)
-NS(s) == FilterStr(s, WS, 1)                      \* the non-blank characters of s, in order
-HasAny(s, cs) == \E i \in 1..Len(s) : Ch(s, i) \in cs
+\* ------------------------------------------------------------------ texts
+T(s) == [i \in 1..Len(s) |-> SubSeq(s, i, i)]                       \* string -> text
+RECURSIVE StrFrom(_, _)
+StrFrom(t, i) == IF i > Len(t) THEN "" ELSE t[i] \o StrFrom(t, i + 1)
+Str(t) == StrFrom(t, 1)                                              \* text -> string
+Strs(q) == [i \in 1..Len(q) |-> Str(q[i])]
+Ts(q) == [i \in 1..Len(q) |-> T(q[i])]
+
+Spaces(n) == [i \in 1..n |-> " "]
+Sub(s, a, b) == SubSeq(s, a, IF b > Len(s) THEN Len(s) ELSE b)          \* s[a..b] clipped to s
+WS == {" ", "^", "|"}
+NS(s) == SelectSeq(s, LAMBDA c : c \notin WS)                        \* the non-blank characters of s, in order
+HasAny(s, cs) == \E i \in 1..Len(s) : s[i] \in cs
 
 RECURSIVE LeadFrom(_, _)
-LeadFrom(s, i) == IF i <= Len(s) /\ Ch(s, i) = " " THEN 1 + LeadFrom(s, i + 1) ELSE 0
+LeadFrom(s, i) == IF i <= Len(s) /\ s[i] = " " THEN 1 + LeadFrom(s, i + 1) ELSE 0
 Lead(s) == LeadFrom(s, 1)
-LStrip(s) == Sub(s, Lead(s) + 1, Len(s))
-AllSpaces(s) == Lead(s) = Len(s)
-StartsWith(s, p) == Len(s) >= Len(p) /\ Sub(s, 1, Len(p)) = p
+LStrip(s) == SubSeq(s, Lead(s) + 1, Len(s))
+AllSpaces(s) == \A i \in 1..Len(s) : s[i] = " "
+StartsWith(s, p) == Len(s) >= Len(p) /\ SubSeq(s, 1, Len(p)) = p
 PadTo(s, n) == s \o Spaces(n - Len(s))
 
 RECURSIVE SplitFrom(_, _, _, _)
 SplitFrom(s, sep, i, cur) ==
   IF i > Len(s) THEN <<cur>>
-  ELSE IF Ch(s, i) = sep THEN <<cur>> \o SplitFrom(s, sep, i + 1, "")
-  ELSE SplitFrom(s, sep, i + 1, cur \o Ch(s, i))
-Split(s, sep) == SplitFrom(s, sep, 1, "")
+  ELSE IF s[i] = sep THEN <<cur>> \o SplitFrom(s, sep, i + 1, <<>>)
+  ELSE SplitFrom(s, sep, i + 1, Append(cur, s[i]))
+Split(s, sep) == SplitFrom(s, sep, 1, <<>>)
 \* physical lines of a block of Python text: boundaries are newlines only; a final newline ends the last line
-PyLines(b) == LET p == Split(b, "|") IN IF p[Len(p)] = "" THEN SubSeq(p, 1, Len(p) - 1) ELSE p
+PyLines(b) == Then(Split(b, "|"), LAMBDA p : IF p[Len(p)] = <<>> THEN SubSeq(p, 1, Len(p) - 1) ELSE p)
 
 RECURSIVE JoinFrom(_, _, _)
 JoinFrom(q, sep, i) == IF i = Len(q) THEN q[i] ELSE q[i] \o sep \o JoinFrom(q, sep, i + 1)
-Join(q, sep) == IF Len(q) = 0 THEN "" ELSE JoinFrom(q, sep, 1)
-Cat(q) == Join(q, "")
+Join(q, sep) == IF Len(q) = 0 THEN <<>> ELSE JoinFrom(q, sep, 1)
+Cat(q) == Join(q, <<>>)
 RECURSIVE RStripNl(_)
-RStripNl(s) == IF Len(s) > 0 /\ Ch(s, Len(s)) = "|" THEN RStripNl(Sub(s, 1, Len(s) - 1)) ELSE s
+RStripNl(s) == IF Len(s) > 0 /\ s[Len(s)] = "|" THEN RStripNl(SubSeq(s, 1, Len(s) - 1)) ELSE s
 
 \* ------------------------------------------------------------------ the writer
 Cur(S) == S.lines[Len(S.lines)]
 Done(S) == SubSeq(S.lines, 1, Len(S.lines) - 1)
-SetCur(S, s) == [S EXCEPT !.lines = Done(S) \o <<s>>]
-Unstarted(S) == S.jn /\ Cur(S) = ""
-New(mw) == [level |-> 0, lines |-> <<"">>, jn |-> TRUE, mw |-> mw]
+SetCur(S, s) == [S EXCEPT !.lines[Len(S.lines)] = s]
+Unstarted(S) == S.jn /\ Cur(S) = <<>>
+New(mw) == [level |-> 0, lines |-> <<<<>>>>, jn |-> TRUE, mw |-> mw]
 
 Indent(S) == [S EXCEPT !.level = @ + 1]
 Dedent(S) == [S EXCEPT !.level = IF @ = 0 THEN 0 ELSE @ - 1]
-AppendT(S, t) == [SetCur(S, IF Unstarted(S) THEN Spaces(4 * S.level) \o t ELSE Cur(S) \o t) EXCEPT !.jn = FALSE]
-Newline(S) == [S EXCEPT !.lines = Append(@, ""), !.jn = TRUE]
+AppendT(S, t) == [S EXCEPT !.lines[Len(S.lines)] = IF Unstarted(S) THEN Spaces(4 * S.level) \o t ELSE @ \o t, !.jn = FALSE]
+Newline(S) == [S EXCEPT !.lines = Append(@, <<>>), !.jn = TRUE]
 MoveTo(S, k) == IF Len(Cur(S)) < k THEN SetCur(S, Cur(S) \o Spaces(k - Len(Cur(S)) - 1)) ELSE S
 ReplaceCur(S, s) == SetCur(S, s)
 
 \* CodeWriter.write_line: one line; an empty line is empty
-WriteLine(S, t) == IF t = "" /\ Unstarted(S) THEN Newline(S) ELSE Newline(AppendT(S, t))
+WriteLine(S, t) == IF t = <<>> /\ Unstarted(S) THEN Newline(S) ELSE Then(AppendT(S, t), Newline)
 RECURSIVE WriteLines(_, _, _)
-WriteLines(S, q, i) == IF i > Len(q) THEN S ELSE WriteLines(WriteLine(S, q[i]), q, i + 1)
-WriteBlock(S, b) == WriteLines(S, PyLines(b), 1)
+WriteLines(S, q, i) == IF i > Len(q) THEN S ELSE Then(WriteLine(S, q[i]), LAMBDA a : WriteLines(a, q, i + 1))
+WriteBlock(S, b) == Then(PyLines(b), LAMBDA q : WriteLines(S, q, 1))
 
 \* ------------------------------------------------------------------ wrapping (greedy, over chunks)
 \* a paragraph is cut into maximal runs of blanks / non-blanks; every blank character counts as one space
 RECURSIVE ChunksFrom(_, _, _, _)
 ChunksFrom(s, i, cur, curws) ==
-  IF i > Len(s) THEN (IF cur = "" THEN <<>> ELSE <<[ws |-> curws, s |-> cur]>>)
-  ELSE LET c == Ch(s, i)  isws == c \in WS  cc == IF isws THEN " " ELSE c IN
-       IF cur = "" THEN ChunksFrom(s, i + 1, cc, isws)
-       ELSE IF isws = curws THEN ChunksFrom(s, i + 1, cur \o cc, curws)
-       ELSE <<[ws |-> curws, s |-> cur]>> \o ChunksFrom(s, i + 1, cc, isws)
-Chunks(s) == ChunksFrom(s, 1, "", FALSE)
+  IF i > Len(s) THEN (IF cur = <<>> THEN <<>> ELSE <<[ws |-> curws, s |-> cur]>>)
+  ELSE IF cur = <<>> THEN ChunksFrom(s, i + 1, <<IF s[i] \in WS THEN " " ELSE s[i]>>, s[i] \in WS)
+  ELSE IF (s[i] \in WS) = curws THEN ChunksFrom(s, i + 1, Append(cur, IF curws THEN " " ELSE s[i]), curws)
+  ELSE <<[ws |-> curws, s |-> cur]>> \o ChunksFrom(s, i + 1, <<IF s[i] \in WS THEN " " ELSE s[i]>>, s[i] \in WS)
+Chunks(s) == ChunksFrom(s, 1, <<>>, FALSE)
 CatChunks(q) == Cat([i \in 1..Len(q) |-> q[i].s])
 
-Blank(c) == c.ws \/ c.s = ""     \* an exhausted piece of a broken word counts as blank
+Blank(c) == c.ws \/ c.s = <<>>     \* an exhausted piece of a broken word counts as blank
 RECURSIVE Take(_, _, _, _)     \* greedy: as many chunks as fit into width
 Take(ch, width, len, line) ==
   IF ch # <<>> /\ len + Len(ch[1].s) <= width THEN Take(Tail(ch), width, len + Len(ch[1].s), Append(line, ch[1]))
   ELSE [line |-> line, len |-> len, rest |-> ch]
+\* a chunk too long for any line is broken: as much of it as fits goes onto this line
+BreakLong(tk, width) ==
+  IF tk.rest # <<>> /\ Len(tk.rest[1].s) > width
+  THEN LET sl == IF width < 1 THEN 1 ELSE width - tk.len
+           c == tk.rest[1]
+       IN [line |-> Append(tk.line, [ws |-> c.ws, s |-> Sub(c.s, 1, sl)]),
+           rest |-> <<[ws |-> c.ws, s |-> Sub(c.s, sl + 1, Len(c.s))]>> \o Tail(tk.rest)]
+  ELSE [line |-> tk.line, rest |-> tk.rest]
+DropTrailingBlank(line) == IF line # <<>> /\ Blank(line[Len(line)]) THEN SubSeq(line, 1, Len(line) - 1) ELSE line
 
-\* lines of the paragraph given as chunks; the first line starts with ind0 (a string), later ones with col spaces
+\* lines of the paragraph given as chunks; the first line starts with ind0 (a text), later ones with col spaces;
+\* blanks at the start of a continuation line and at the end of any line are dropped
 RECURSIVE WrapLoop(_, _, _, _, _)
 WrapLoop(ch, W, ind0, col, out) ==
   IF ch = <<>> THEN out ELSE
-  LET first == out = <<>>
-      ind == IF first THEN ind0 ELSE Spaces(col)
-      width == W - Len(ind)
-      ch1 == IF ~first /\ Blank(ch[1]) THEN Tail(ch) ELSE ch
-      tk == Take(ch1, width, 0, <<>>)
-      long == tk.rest # <<>> /\ Len(tk.rest[1].s) > width
-      sl == IF width < 1 THEN 1 ELSE width - tk.len
-      c == tk.rest[1]
-      line1 == IF long THEN Append(tk.line, [ws |-> c.ws, s |-> Sub(c.s, 1, sl)]) ELSE tk.line
-      rest1 == IF long THEN <<[ws |-> c.ws, s |-> Sub(c.s, sl + 1, Len(c.s))]>> \o Tail(tk.rest) ELSE tk.rest
-      line2 == IF line1 # <<>> /\ Blank(line1[Len(line1)]) THEN SubSeq(line1, 1, Len(line1) - 1) ELSE line1
-  IN WrapLoop(rest1, W, ind0, col, IF line2 = <<>> THEN out ELSE Append(out, ind \o CatChunks(line2)))
-WrapPara(P, W, ind0, col) == WrapLoop(Chunks(P), W, ind0, col, <<>>)
+  Then(IF out = <<>> THEN ind0 ELSE Spaces(col), LAMBDA ind :
+  Then(Take(IF out # <<>> /\ Blank(ch[1]) THEN Tail(ch) ELSE ch, W - Len(ind), 0, <<>>), LAMBDA tk :
+  Then(BreakLong(tk, W - Len(ind)), LAMBDA lw :
+  Then(DropTrailingBlank(lw.line), LAMBDA line :
+  Then(IF line = <<>> THEN out ELSE Append(out, ind \o CatChunks(line)), LAMBDA o :
+    WrapLoop(lw.rest, W, ind0, col, o))))))
+WrapPara(P, W, ind0, col) == Then(Chunks(P), LAMBDA ch : WrapLoop(ch, W, ind0, col, <<>>))
 
-ColOf(S) == IF Cur(S) = "" THEN 4 * S.level ELSE Len(Cur(S))
+ColOf(S) == IF Cur(S) = <<>> THEN 4 * S.level ELSE Len(Cur(S))
 
 \* LineWriter.append_wrapped: continue the current line with `t`, continuation lines aligned at the current column
 Wrap(S, t) ==
-  IF t = "" THEN S ELSE
-  LET S1 == IF S.mw - ColOf(S) <= 0 THEN Newline(S) ELSE S
-      col == ColOf(S1)
-      out == WrapPara(PadTo(Cur(S1), col) \o t, S1.mw, "", col)
-  IN IF out = <<>> THEN S1
-     ELSE [S1 EXCEPT !.lines = Done(S1) \o out, !.jn = IF Len(out) > 1 THEN TRUE ELSE S1.jn]
+  IF t = <<>> THEN S ELSE
+  Then(IF S.mw - ColOf(S) <= 0 THEN Newline(S) ELSE S, LAMBDA S1 :
+  Then(WrapPara(PadTo(Cur(S1), ColOf(S1)) \o t, S1.mw, <<>>, ColOf(S1)), LAMBDA out :
+    IF out = <<>> THEN S1
+    ELSE [S1 EXCEPT !.lines = Done(S1) \o out, !.jn = IF Len(out) > 1 THEN TRUE ELSE S1.jn]))
 
 \* LineWriter.wrap_and_append: wrap `t` on its own (prefix on the first line), every piece appended as a line
 RECURSIVE AppendLines(_, _, _)
-AppendLines(S, q, i) == IF i > Len(q) THEN S ELSE AppendLines(AppendT(IF i > 1 THEN Newline(S) ELSE S, q[i]), q, i + 1)
-WrapAndAppend(S, t, w, p) == AppendLines(S, WrapPara(t, w, p, Len(p)), 1)
+AppendLines(S, q, i) ==
+  IF i > Len(q) THEN S
+  ELSE Then(IF i > 1 THEN Newline(S) ELSE S, LAMBDA a : Then(AppendT(a, q[i]), LAMBDA b : AppendLines(b, q, i + 1)))
+WrapAndAppend(S, t, w, p) == Then(WrapPara(t, w, p, Len(p)), LAMBDA q : AppendLines(S, q, 1))
 
 \* LineWriter.append_wrapped_at_column(text, width, col): words of the text; continuation lines start at column k
 RECURSIVE WordsOf(_)
 WordsOf(ch) == IF ch = <<>> THEN <<>> ELSE (IF ch[1].ws THEN <<>> ELSE <<ch[1].s>>) \o WordsOf(Tail(ch))
 RECURSIVE FirstFill(_, _, _)
 FirstFill(words, avail, acc) ==
-  IF words # <<>> /\ Len(acc) + Len(words[1]) + (IF acc = "" THEN 0 ELSE 1) <= avail
-  THEN FirstFill(Tail(words), avail, (IF acc = "" THEN "" ELSE acc \o " ") \o words[1])
+  IF words # <<>> /\ Len(acc) + Len(words[1]) + (IF acc = <<>> THEN 0 ELSE 1) <= avail
+  THEN FirstFill(Tail(words), avail, (IF acc = <<>> THEN <<>> ELSE Append(acc, " ")) \o words[1])
   ELSE [acc |-> acc, rest |-> words]
 RECURSIVE ColLines(_, _, _, _)
-ColLines(S, q, k, i) == IF i > Len(q) THEN S ELSE ColLines(AppendT(MoveTo(Newline(S), k), q[i]), q, k, i + 1)
+ColLines(S, q, k, i) ==
+  IF i > Len(q) THEN S
+  ELSE Then(Newline(S), LAMBDA a : Then(MoveTo(a, k), LAMBDA b : Then(AppendT(b, q[i]), LAMBDA c : ColLines(c, q, k, i + 1))))
 WrapAtCol(S, t, w, kk) ==
-  IF t = "" THEN S ELSE
-  LET k == IF kk < 0 THEN Len(Cur(S)) ELSE kk
-      S1 == IF w - Len(Cur(S)) <= 0 THEN MoveTo(Newline(S), k) ELSE S
-      avail == IF w - Len(Cur(S1)) < 0 THEN 0 ELSE w - Len(Cur(S1))
-      ff == FirstFill(WordsOf(Chunks(t)), avail, "")
-      S2 == IF ff.acc = "" THEN S1 ELSE AppendT(S1, ff.acc)
-  IN IF ff.rest = <<>> THEN S2 ELSE ColLines(S2, WrapPara(Join(ff.rest, " "), w - k, "", 0), k, 1)
+  IF t = <<>> THEN S ELSE
+  Then(IF kk < 0 THEN Len(Cur(S)) ELSE kk, LAMBDA k :
+  Then(IF w - Len(Cur(S)) <= 0 THEN Then(Newline(S), LAMBDA a : MoveTo(a, k)) ELSE S, LAMBDA S1 :
+  Then(FirstFill(WordsOf(Chunks(t)), IF w - Len(Cur(S1)) < 0 THEN 0 ELSE w - Len(Cur(S1)), <<>>), LAMBDA ff :
+  Then(IF ff.acc = <<>> THEN S1 ELSE AppendT(S1, ff.acc), LAMBDA S2 :
+    IF ff.rest = <<>> THEN S2
+    ELSE Then(WrapPara(Join(ff.rest, <<" ">>), w - k, <<>>, 0), LAMBDA q : ColLines(S2, q, k, 1))))))
 
-\* CodeWriter.write_wrapped_line / write_wrapped_docstring_line / write_function_signature
-WithWidth(S, w, S2) == [S2 EXCEPT !.mw = S.mw]
-WriteWrapped(S, t, w) == WithWidth(S, w, Newline(Wrap([S EXCEPT !.mw = w], t)))
-WriteWrappedDoc(S, p, t, w) == WithWidth(S, w, Newline(Wrap(AppendT([S EXCEPT !.mw = w], p), t)))
-DefKw(async) == IF async = 1 THEN "async def" ELSE "def"
+\* CodeWriter.write_wrapped_line / write_wrapped_docstring_line / write_function_signature:
+\* the width is in force for this call only
+WriteWrapped(S, t, w) ==
+  Then(Wrap([S EXCEPT !.mw = w], t), LAMBDA a : Then(Newline(a), LAMBDA b : [b EXCEPT !.mw = S.mw]))
+WriteWrappedDoc(S, p, t, w) ==
+  Then(AppendT([S EXCEPT !.mw = w], p), LAMBDA a : Then(Wrap(a, t), LAMBDA b : Then(Newline(b), LAMBDA c : [c EXCEPT !.mw = S.mw])))
+DefKw(async) == IF async = 1 THEN T("async def") ELSE T("def")
 WriteSig(S, name, args, rt, async) ==
   IF args # <<>> THEN
-    LET S1 == Indent(WriteLine(S, DefKw(async) \o " " \o name \o "("))
-        S2 == WriteLines(S1, [i \in 1..Len(args) |-> args[i] \o ","], 1)
-    IN WriteLine(Dedent(S2), IF rt = "" THEN "):" ELSE ") -> " \o rt \o ":")
-  ELSE WriteLine(S, DefKw(async) \o " " \o name \o "(self)" \o (IF rt = "" THEN ":" ELSE " -> " \o rt \o ":"))
+    Then(WriteLine(S, DefKw(async) \o T(" ") \o name \o T("(")), LAMBDA S0 :
+    Then(Indent(S0), LAMBDA S1 :
+    Then(WriteLines(S1, [i \in 1..Len(args) |-> Append(args[i], ",")], 1), LAMBDA S2 :
+    Then(Dedent(S2), LAMBDA S3 :
+      WriteLine(S3, IF rt = <<>> THEN T("):") ELSE T(") -> ") \o rt \o T(":"))))))
+  ELSE WriteLine(S, DefKw(async) \o T(" ") \o name \o T("(self)") \o (IF rt = <<>> THEN T(":") ELSE T(" -> ") \o rt \o T(":")))
 \* the signature written on ONE line, blanks removed: the oracle for what the multi-line form must spell
 SigFlat(name, args, rt, async) ==
-  NS(DefKw(async) \o name \o "(" \o (IF args = <<>> THEN "self" ELSE Cat([i \in 1..Len(args) |-> args[i] \o ","])) \o ")"
-     \o (IF rt = "" THEN "" ELSE "->" \o rt) \o ":")
+  NS(DefKw(async) \o name \o T("(") \o (IF args = <<>> THEN T("self") ELSE Cat([i \in 1..Len(args) |-> Append(args[i], ",")])) \o T(")")
+     \o (IF rt = <<>> THEN <<>> ELSE T("->") \o rt) \o T(":"))
 
-GetValue(S) == Join(S.lines, "|")
+GetValue(S) == Join(S.lines, <<"|">>)
 GetCode(S) == RStripNl(GetValue(S))
 
 \* ------------------------------------------------------------------ calls
-\* a call is [op, t, p, w, k, a]: text, second text (prefix / return type), width, integer, argument list
+\* a call is [op, t, p, w, k, a]: text, second text (prefix / return type), width, integer, list of texts
 Call(op, t, p, w, k, a) == [op |-> op, t |-> t, p |-> p, w |-> w, k |-> k, a |-> a]
 Queries == {"get_code", "getvalue", "current_width", "current_line"}
-LineWriting == {"write_line", "write_block", "write_function_signature"}
 Wrapping == {"append_wrapped", "write_wrapped_line", "write_wrapped_docstring_line"}
 
 Apply(c, S) ==
-  CASE c.op = "indent"  -> [st |-> Indent(S), ret |-> ""]
-    [] c.op = "dedent"  -> [st |-> Dedent(S), ret |-> ""]
-    [] c.op = "append"  -> [st |-> AppendT(S, c.t), ret |-> ""]
-    [] c.op = "newline" -> [st |-> Newline(S), ret |-> ""]
-    [] c.op = "move_to_column" -> [st |-> MoveTo(S, c.k), ret |-> ""]
-    [] c.op = "replace_current_line" -> [st |-> ReplaceCur(S, c.t), ret |-> ""]
-    [] c.op = "append_wrapped" -> [st |-> Wrap(S, c.t), ret |-> ""]
-    [] c.op = "wrap_and_append" -> [st |-> WrapAndAppend(S, c.t, c.w, c.p), ret |-> ""]
-    [] c.op = "append_wrapped_at_column" -> [st |-> WrapAtCol(S, c.t, c.w, c.k), ret |-> ""]
-    [] c.op = "write_line" -> [st |-> WriteLine(S, c.t), ret |-> ""]
-    [] c.op = "write_block" -> [st |-> WriteBlock(S, c.t), ret |-> ""]
-    [] c.op = "write_wrapped_line" -> [st |-> WriteWrapped(S, c.t, c.w), ret |-> ""]
-    [] c.op = "write_wrapped_docstring_line" -> [st |-> WriteWrappedDoc(S, c.p, c.t, c.w), ret |-> ""]
-    [] c.op = "write_function_signature" -> [st |-> WriteSig(S, c.t, c.a, c.p, c.k), ret |-> ""]
+  CASE c.op = "indent"  -> [st |-> Indent(S), ret |-> <<>>]
+    [] c.op = "dedent"  -> [st |-> Dedent(S), ret |-> <<>>]
+    [] c.op = "append"  -> [st |-> AppendT(S, c.t), ret |-> <<>>]
+    [] c.op = "newline" -> [st |-> Newline(S), ret |-> <<>>]
+    [] c.op = "move_to_column" -> [st |-> MoveTo(S, c.k), ret |-> <<>>]
+    [] c.op = "replace_current_line" -> [st |-> ReplaceCur(S, c.t), ret |-> <<>>]
+    [] c.op = "append_wrapped" -> [st |-> Wrap(S, c.t), ret |-> <<>>]
+    [] c.op = "wrap_and_append" -> [st |-> WrapAndAppend(S, c.t, c.w, c.p), ret |-> <<>>]
+    [] c.op = "append_wrapped_at_column" -> [st |-> WrapAtCol(S, c.t, c.w, c.k), ret |-> <<>>]
+    [] c.op = "write_line" -> [st |-> WriteLine(S, c.t), ret |-> <<>>]
+    [] c.op = "write_block" -> [st |-> WriteBlock(S, c.t), ret |-> <<>>]
+    [] c.op = "write_wrapped_line" -> [st |-> WriteWrapped(S, c.t, c.w), ret |-> <<>>]
+    [] c.op = "write_wrapped_docstring_line" -> [st |-> WriteWrappedDoc(S, c.p, c.t, c.w), ret |-> <<>>]
+    [] c.op = "write_function_signature" -> [st |-> WriteSig(S, c.t, c.a, c.p, c.k), ret |-> <<>>]
     [] c.op = "get_code" -> [st |-> S, ret |-> GetCode(S)]
     [] c.op = "getvalue" -> [st |-> S, ret |-> GetValue(S)]
     [] c.op = "current_line" -> [st |-> S, ret |-> Cur(S)]
-    [] c.op = "current_width" -> [st |-> S, ret |-> ToString(Len(Cur(S)))]
+    [] c.op = "current_width" -> [st |-> S, ret |-> T(ToString(Len(Cur(S))))]
+
+\* the external (JSON) form: texts as strings
+ExtState(S) == [level |-> S.level, lines |-> Strs(S.lines), jn |-> S.jn, mw |-> S.mw]
+IntState(x) == [level |-> x.level, lines |-> Ts(x.lines), jn |-> x.jn, mw |-> x.mw]
+ExtCall(c) == [op |-> c.op, t |-> Str(c.t), p |-> Str(c.p), w |-> c.w, k |-> c.k, a |-> Strs(c.a)]
+IntCall(x) == [op |-> x.op, t |-> T(x.t), p |-> T(x.p), w |-> x.w, k |-> x.k, a |-> Ts(x.a)]
 
 \* ------------------------------------------------------------------ what is promised for which call
 \* the text the call feeds (its blanks do not matter for the preservation statement)
 Fed(c) ==
-  CASE c.op \in {"append", "write_line", "write_block", "append_wrapped", "write_wrapped_line", "wrap_and_append",
+  CASE c.op \in {"append", "write_line", "write_block", "append_wrapped", "write_wrapped_line",
                  "append_wrapped_at_column", "replace_current_line"} -> NS(c.t)
     [] c.op = "write_wrapped_docstring_line" -> NS(c.p \o c.t)
+    [] c.op = "wrap_and_append" -> IF NS(c.t) = <<>> THEN <<>> ELSE NS(c.p \o c.t)   \* nothing at all for a blank text
     [] c.op = "write_function_signature" -> SigFlat(c.t, c.a, c.p, c.k)
-    [] OTHER -> ""
+    [] OTHER -> <<>>
 
 \* column at which a wrapping call starts and the width it must respect
-WrapStart(c, S) == IF c.op = "write_wrapped_docstring_line" THEN Len(Cur(AppendT(S, c.p))) ELSE ColOf(S)
+WrapStart(c, S) == IF c.op = "write_wrapped_docstring_line" THEN (IF Unstarted(S) THEN 4 * S.level ELSE Len(Cur(S))) + Len(c.p) ELSE ColOf(S)
 WrapWidth(c, S) == IF c.op = "append_wrapped" THEN S.mw ELSE c.w
 \* a wrapping call is within the contract when there is room on the line (otherwise: as-is behaviour, DRIFT only)
 RoomToWrap(c, S) == WrapWidth(c, S) > WrapStart(c, S)
@@ -229,20 +254,15 @@ ExactLayout(c, S) == ~HasAny(Cur(S) \o c.p \o c.t, {"^", "-"})
 Region(S, R) == SubSeq(R.lines, Len(S.lines), Len(R.lines))
 
 \* ---- the wrapping statements, as predicates over (pre-state, call, post-state)
-WrapWidthOk(c, S, R) == \A i \in 1..Len(Region(S, R)) : Len(Region(S, R)[i]) <= WrapWidth(c, S)
-WrapTextOk(c, S, R) ==
-  LET reg == Region(S, R)  body == IF c.op = "append_wrapped" THEN reg ELSE SubSeq(reg, 1, Len(reg) - 1)
-  IN NS(Cat(body)) = NS(Cur(S)) \o Fed(c)
+WrapWidthOk(c, S, R) == \A i \in Len(S.lines)..Len(R.lines) : Len(R.lines[i]) <= WrapWidth(c, S)
+WrapTextOk(c, S, R) == NS(Cat(Region(S, R))) = NS(Cur(S)) \o Fed(c)
+\* continuation lines (not the first one, not the fresh line a write_wrapped_* call ends with) start at the column
 WrapAlignOk(c, S, R) ==
-  LET reg == Region(S, R)  n == IF c.op = "append_wrapped" THEN Len(reg) ELSE Len(reg) - 1
-  IN \A i \in 2..n : StartsWith(reg[i], Spaces(WrapStart(c, S))) /\ ~AllSpaces(reg[i])
+  \A i \in Len(S.lines) + 1..(IF c.op = "append_wrapped" THEN Len(R.lines) ELSE Len(R.lines) - 1) :
+     StartsWith(R.lines[i], Spaces(WrapStart(c, S))) /\ ~AllSpaces(R.lines[i])
 \* every blank-separated token of the text arrives unbroken when it fits the room there is
-RECURSIVE Tokens(_)
-Tokens(ch) == IF ch = <<>> THEN <<>> ELSE (IF ch[1].ws THEN <<>> ELSE <<ch[1].s>>) \o Tokens(Tail(ch))
 WrapRejoinOk(c, S, R) ==
-  LET reg == Region(S, R)  body == IF c.op = "append_wrapped" THEN reg ELSE SubSeq(reg, 1, Len(reg) - 1)
-      src == Cur(S) \o (IF c.op = "write_wrapped_docstring_line" THEN (IF Unstarted(S) THEN Spaces(4 * S.level) ELSE "") \o c.p ELSE "") \o c.t
-      room == WrapWidth(c, S) - WrapStart(c, S)
-      fits == \A i \in 1..Len(Tokens(Chunks(src))) : Len(Tokens(Chunks(src))[i]) <= room
-  IN (fits /\ ~HasAny(src, {"-"})) => Tokens(Chunks(Join(body, " "))) = Tokens(Chunks(src))
+  \A src \in {Cur(S) \o c.p \o c.t} : \A toks \in {WordsOf(Chunks(src))} :
+     ((\A i \in 1..Len(toks) : Len(toks[i]) <= WrapWidth(c, S) - WrapStart(c, S)) /\ ~HasAny(src, {"-"}))
+        => WordsOf(Chunks(Join(Region(S, R), <<" ">>))) = toks
 =============================================================================
